@@ -229,7 +229,7 @@ class LoopMixin:
         o = rel.as_int()
         if o is None:
             ci = i.as_int()
-            if ci is not None and 0 <= ci < len(s.init) - 0 and False:
+            if ci is not None and 0 <= ci < len(s.init):
                 return s.init[ci]
             raise Unmodelled("series %s read at index %s (not k+const) at %s" % (s.name, i, frame.loc(node)))
         L = len(s.init)
